@@ -605,7 +605,7 @@ func (cs *ContractSet) ParseFile(path string, pkgPath string) error {
 			case "mapassert":
 				// mapassert <map local> <expr>: checked at every `m[key] = value` on the local map variable of that
 				// name in this function's own body, in the state BEFORE the update (so m[key] is the old entry);
-				// `key` and `value` are the operands.  Every such update also bumps ghost(mapupd, m) by one.
+				// `mapkey` and `mapval` are the operands; the map may be a local or a field written as in the source (wb.cache).  Every such update also bumps ghost(mapupd, m) by one.
 				parts := strings.SplitN(text, " ", 2)
 				if len(parts) != 2 {
 					return fmt.Errorf("%s:%d: mapassert needs '<map> <expr>'", path, line)
